@@ -165,6 +165,8 @@ type Machine struct {
 	rng            *rand.Rand
 	sessionFP      bool
 	InitAllowed    func(*ssa.Package) bool
+	Deadline       time.Time // per-task wall-clock limit (zero: none)
+	stopTask       bool
 	MonitorShared  bool // report stores into package-level state (C18)
 	sorted         bool
 }
@@ -930,6 +932,18 @@ func (m *Machine) obligation(kind, msg, where string, bad *term.Term) bool {
 			}
 			if model == nil {
 				r = solver.Unknown // model did not validate in the evaluator; ask a fresh solver
+			}
+		}
+	}
+	if r == solver.Unknown {
+		// the incremental session gave up: with at most 16 free input bits an exact enumeration of a
+		// few hundred million node evaluations beats a minutes-long fresh solve (and finds
+		// counter-models in Galois-field arithmetic that the solvers search for in vain)
+		if res, mod := m.truthTableCost(bad, 16, 400_000_000); res != solver.Unknown {
+			m.Stats.ByTruthTable++
+			r = res
+			if mod != nil {
+				model = mod.Eval
 			}
 		}
 	}
